@@ -66,6 +66,11 @@ type constructorNode struct {
 
 	// Callback for this provided function, if there is one.
 	callback Callback
+
+	// building is set while Call is building this constructor; buildingAt is
+	// the number of decorators that were on the stack when it started.
+	building   bool
+	buildingAt int
 }
 
 type constructorOptions struct {
@@ -151,6 +156,23 @@ func (n *constructorNode) Call(c containerStore) (err error) {
 			Reason: err,
 		}
 	}
+
+	// Resolution came back to this constructor while it is being built.
+	// That is legitimate only if a decorator was entered in between (a
+	// decorator on the stack is skipped, so the inner resolution takes a
+	// different path). Otherwise this is a dependency cycle that no single
+	// scope's graph showed - e.g. exported constructors of sibling scopes
+	// depending on each other through private dependencies - and building
+	// would recurse until the stack overflows.
+	root := n.s.rootScope()
+	if n.building && n.buildingAt == root.decoratorsOnStack {
+		return errCycleDetected{
+			Path:  []cycleErrPathEntry{{Key: key{t: n.ctype}, Func: n.location}},
+			scope: n.s,
+		}
+	}
+	defer func(b bool, at int) { n.building, n.buildingAt = b, at }(n.building, n.buildingAt)
+	n.building, n.buildingAt = true, root.decoratorsOnStack
 
 	args, err := n.paramList.BuildList(c)
 	if err != nil {
